@@ -14,15 +14,18 @@ import (
 	"fmt"
 	"io"
 	"log"
+	"net"
 	"sort"
 	"strings"
 	"sync"
+	"sync/atomic"
 	"testing"
 	"time"
 
 	"github.com/fiorix/go-diameter/v4/diam"
 	"github.com/fiorix/go-diameter/v4/diam/datatype"
 	"github.com/fiorix/go-diameter/v4/diam/dict"
+	"github.com/ishidawataru/sctp"
 	"pgregory.net/rapid"
 
 	"verif/internal/ev"
@@ -190,6 +193,39 @@ func (c *Case) chunks() []memnet.Chunk {
 // ---------------------------------------------------------------------------
 // running a case
 
+// shell stands between the hook and the in-memory backend. The hook keeps
+// every backend it was ever given reachable (package-level registry), so the
+// shell lets go of the backend - and with it of all chunk and write records -
+// when the case is over; what stays behind is a few words per case.
+type shell struct{ p atomic.Pointer[memnet.SCTP] }
+
+func newShell(be *memnet.SCTP) *shell { s := &shell{}; s.p.Store(be); return s }
+func (s *shell) release()             { s.p.Store(nil) }
+
+func (s *shell) SCTPRead(b []byte) (int, *sctp.SndRcvInfo, error) {
+	if be := s.p.Load(); be != nil {
+		return be.SCTPRead(b)
+	}
+	return 0, nil, memnet.ErrClosed
+}
+
+func (s *shell) SCTPWrite(b []byte, info *sctp.SndRcvInfo) (int, error) {
+	if be := s.p.Load(); be != nil {
+		return be.SCTPWrite(b, info)
+	}
+	return 0, memnet.ErrClosed
+}
+
+func (s *shell) Close() error {
+	if be := s.p.Load(); be != nil {
+		return be.Close()
+	}
+	return nil
+}
+
+func (s *shell) LocalAddr() net.Addr  { return memnet.Addr{Net: "sctp", Str: "10.1.2.3:3868"} }
+func (s *shell) RemoteAddr() net.Addr { return memnet.Addr{Net: "sctp", Str: "10.9.8.7:40000"} }
+
 type delivery struct {
 	stream uint
 	hdr    diam.Header
@@ -211,6 +247,8 @@ func runCase(c Case) *ev.Failure {
 		return ev.Failf("harness-case", "inconsistent case: %v", err)
 	}
 	be := memnet.NewSCTP()
+	sh := newShell(be)
+	defer sh.release()
 	var (
 		mu   sync.Mutex
 		got  []delivery
@@ -264,7 +302,7 @@ func runCase(c Case) *ev.Failure {
 		be.Feed(all...)
 		be.FeedEOF()
 	}
-	if _, err := diam.NewConn(diam.NewVerifSCTPConn(be), "", mux, dict.Default); err != nil {
+	if _, err := diam.NewConn(diam.NewVerifSCTPConn(sh), "", mux, dict.Default); err != nil {
 		be.Close()
 		return ev.Failf("harness-conn", "NewConn: %v", err)
 	}
@@ -614,13 +652,15 @@ func classify(c Case) (bool, []string) {
 // generator
 
 func genSize(t *rapid.T) int {
-	switch k := rapid.IntRange(0, 19).Draw(t, "size-class"); {
-	case k < 8:
+	// The > 64 KiB class (the body is then read in two pieces) is kept rare: the hook's registry keeps every
+	// diam.SCTPConn of the process reachable, and with it the capacity of its per-stream buffers.
+	switch k := rapid.IntRange(0, 59).Draw(t, "size-class"); {
+	case k < 24:
 		return rapid.IntRange(8, 60).Draw(t, "tiny")
-	case k < 14:
+	case k < 42:
 		// bodies of 1000..1032 bytes: body = 8 + padded payload
 		return rapid.IntRange(989, 1024).Draw(t, "around-1KiB")
-	case k < 19:
+	case k < 59:
 		return rapid.IntRange(1500, 6000).Draw(t, "few-KiB")
 	default:
 		return rapid.IntRange(65500, 70000).Draw(t, "over-64KiB")
